@@ -1,7 +1,7 @@
 """C02 - config-class round trip."""
 from vf.props import rt_props
 
-KEYS = ["vf.contracts.laws:class_roundtrip", "vf.contracts.laws:class_attribute_roundtrip", "doctrans.emitter_utils:to_docstring", "doctrans.docstring_parsers:_infer_default", "doctrans.parse:class_", "doctrans.docstring_parsers:_set_name_and_type", "doctrans.ast_utils:param2ast", "doctrans.ast_utils:set_value", "doctrans.defaults_utils:needs_quoting", "doctrans.defaults_utils:set_default_doc",
+KEYS = ["vf.contracts.laws:class_roundtrip", "vf.contracts.laws:class_roundtrip_documented", "vf.contracts.laws:class_attribute_roundtrip", "doctrans.emitter_utils:to_docstring", "doctrans.docstring_parsers:_infer_default", "doctrans.parse:class_", "doctrans.docstring_parsers:_set_name_and_type", "doctrans.ast_utils:param2ast", "doctrans.ast_utils:set_value", "doctrans.defaults_utils:needs_quoting", "doctrans.defaults_utils:set_default_doc",
         "doctrans.pure_utils:quote", "doctrans.pure_utils:unquote", "doctrans.pure_utils:code_quoted"]
 
 
